@@ -63,10 +63,10 @@ def enc_len(n, pad=0):
 
 
 class Forms:
-    """Which alternative forms to use; every probability is per node."""
+    """Which alternative forms to use; every probability is per node (perm: SET components in another order)."""
 
-    def __init__(self, pad=0.0, indef=0.0, seg=0.0, nest=0.0):
-        self.pad, self.indef, self.seg, self.nest = pad, indef, seg, nest
+    def __init__(self, pad=0.0, indef=0.0, seg=0.0, nest=0.0, perm=0.0):
+        self.pad, self.indef, self.seg, self.nest, self.perm = pad, indef, seg, nest, perm
 
 
 def frame(tag, body, constructed, rng, f):
@@ -147,14 +147,16 @@ def reser(t, node, bare, rng, f):
         return string_variant('b', node.tag, node.content, rng, f)
     if k in ('bool', 'null', 'int', 'enum'):
         return frame(node.tag, node.content, False, rng, f)
-    if k == 'seq':
+    if k in ('seq', 'set'):
         members = t['root'] + (t['ext'] or [])
-        body = b''
+        parts = []
         for child in node.children:
             m = members[ctx_number(child.tag)]
-            body += reser(m['t'], child, False, rng, f)
-        return frame(node.tag, body, True, rng, f)
-    if k == 'seqof':
+            parts.append(reser(m['t'], child, False, rng, f))
+        if k == 'set' and rng.random() < f.perm:
+            rng.shuffle(parts)                        # X.690 8.11.3: any order
+        return frame(node.tag, b''.join(parts), True, rng, f)
+    if k in ('seqof', 'setof'):
         body = b''.join(reser(t['elem'], child, True, rng, f) for child in node.children)
         return frame(node.tag, body, True, rng, f)
     if k == 'choice':
@@ -173,6 +175,97 @@ KINDS = {
     'segments': Forms(seg=1.0, nest=0.25),
     'mix': Forms(pad=0.3, indef=0.4, seg=0.5, nest=0.2),
 }
+SET_KINDS = {
+    'perm': Forms(perm=1.0),
+    'perm+segments': Forms(perm=1.0, seg=1.0, nest=0.25),
+    'perm+indef': Forms(perm=1.0, indef=1.0),
+    'perm+mix': Forms(perm=0.8, pad=0.3, indef=0.4, seg=0.5, nest=0.2),
+}
+
+
+# ------------------------------------------------------------------------------ independent reader (certification of variants)
+def parse_any(data, pos=0, depth=0):
+    """any BER TLV (definite incl. padded long form, indefinite + EOC) at data[pos:] -> (Node, end)"""
+    if depth > 60:
+        raise ValueError('too deep')
+    tag, pos = parse_tag(data, pos)
+    b = data[pos]
+    pos += 1
+    if b == 0x80:
+        if not tag[0] & 0x20:
+            raise ValueError('indefinite primitive')
+        children = []
+        while data[pos:pos + 2] != b'\x00\x00':
+            child, pos = parse_any(data, pos, depth + 1)
+            children.append(child)
+        return Node(tag, children), pos + 2
+    if b < 0x80:
+        length = b
+    else:
+        n = b & 0x7f
+        if n == 0 or pos + n > len(data):
+            raise ValueError('bad length')
+        length = int.from_bytes(data[pos:pos + n], 'big')
+        pos += n
+    end = pos + length
+    if end > len(data):
+        raise ValueError('length beyond data')
+    if tag[0] & 0x20:
+        children = []
+        while pos < end:
+            child, pos = parse_any(data, pos, depth + 1)
+            children.append(child)
+        if pos != end:
+            raise ValueError('child overruns parent')
+        return Node(tag, children), end
+    return Node(tag, None, data[pos:end]), end
+
+
+def _flatten_string(node, bit):
+    """contents of a possibly constructed (nested) string encoding as ONE primitive contents"""
+    if node.children is None:
+        return node.content
+    out, unused = b'', 0
+    for i, ch in enumerate(node.children):
+        c = _flatten_string(ch, bit)
+        if bit:
+            if not c:
+                raise ValueError('empty BIT STRING segment')
+            if unused:
+                raise ValueError('unused bits before the last segment')
+            unused, c = c[0], c[1:]
+        out += c
+    return (bytes([unused]) + out) if bit else out
+
+
+def canonical(t, node, bare=True):
+    """definite, minimal-length, primitive-string, tag-sorted-SET re-serialisation of any valid BER encoding of type t:
+    two encodings of one value have the same canonical form (members keep their tags; SET OF order is kept)"""
+    k = t['k']
+    if k in ('octs', 'str', 'bits'):
+        return with_constructed(node.tag, False) + enc_len(len(_flatten_string(node, k == 'bits'))) + _flatten_string(node, k == 'bits')
+    if k in ('bool', 'null', 'int', 'enum', 'real', 'oid'):
+        if node.children is not None:
+            raise ValueError('constructed primitive')
+        return node.tag + enc_len(len(node.content)) + node.content
+    if k in ('seq', 'set'):
+        members = t['root'] + (t['ext'] or [])
+        parts = [(ch.tag, canonical(members[ctx_number(ch.tag)]['t'], ch, False)) for ch in node.children]
+        if k == 'set':
+            parts.sort(key=lambda p: (p[0][0] & 0xc0, ctx_number(p[0])))
+        body = b''.join(p[1] for p in parts)
+        return node.tag + enc_len(len(body)) + body
+    if k in ('seqof', 'setof'):
+        body = b''.join(canonical(t['elem'], ch, True) for ch in node.children)
+        return node.tag + enc_len(len(body)) + body
+    if k == 'choice':
+        alts = t['root'] + (t['ext'] or [])
+        if bare:
+            return canonical(alts[ctx_number(node.tag)][1], node, False)
+        (inner,) = node.children
+        body = canonical(alts[ctx_number(inner.tag)][1], inner, False)
+        return node.tag + enc_len(len(body)) + body
+    raise ValueError(k)
 
 
 # ------------------------------------------------------------------------------ mutations
